@@ -20,7 +20,7 @@ pub fn prop() -> Prop {
         subs: vec![
             Sub::tape("items", 300, 150_000, 7_500_000, |d, cx| run_items(d, cx)),
             Sub::tape("thick_joins", 40, 100_000, 5_000_000, thick_joins),
-            Sub::tape("large", 40, 1_500, 75_000, large),
+            Sub::tape("large", 40, 3_000, 150_000, large),
             Sub::tape("primitives_queries", 30, 100_000, 5_000_000, queries).with_fp(),
             Sub::tape("real_arithmetic", 40, 60_000, 3_000_000, real_arithmetic).with_fp(),
             Sub::tape("far_offsets", 300, 60_000, 3_000_000, far_offsets).with_fp(),
